@@ -429,3 +429,33 @@ example : ∃ out,
 example : Comb.maxT.supported = true ∧ Comb.distinctSet.supported = true := ⟨rfl, rfl⟩
 
 end IB
+
+/-! ## Streamed file sources (the driver's `runSeqFile` / `runParFile`, request kind `PIPEF`) -/
+
+namespace IB
+
+/-- the file source meets the source contract for EVERY shard size (0 is clamped to 1; an empty file has
+    zero shards) and every requested partition count (which it ignores) -/
+theorem fileSplit_flatten (xs : List Val) (per k : Nat) : (fileSplit xs per k).flatten = xs := by
+  unfold fileSplit
+  exact chunksOf_flatten (max per 1) (by omega) xs.length xs (Nat.le_refl _)
+
+/-- **C01 over a streamed file source.** For every join-free covered program over a file source with ANY
+    `lines_per_shard`, `collect_par` returns what `collect_seq` returns, for every partition count. -/
+theorem C01_program_file (src : List Val) (per : Nat) (steps : List Step)
+    (h : steps.all Step.subSupported = true) (n : Nat) :
+    runParFile src per steps n = runSeqFile src per steps := by
+  have hchain : litChainFile src per steps = fileSource src per :: steps.flatMap (Step.apply []) := by
+    unfold litChainFile
+    rw [applySteps_joinFree steps (steps_joinFree_of_sub steps h)]; rfl
+  unfold runParFile runSeqFile
+  rw [hchain]
+  exact C01_pipeline_any_source src src.length (fileSplit src per) (fileSplit_flatten src per)
+    _ (fun nd hnd => .sub (steps_nodes_subBuilt steps h nd hnd)) n
+
+/-- non-vacuity: an empty file (zero shards) in front of a global combine still yields the single row -/
+example : runParFile [] 3 [.combineGlobally .sum (some 1)] 4 = .ok [.int 0] ∧
+    runSeqFile [] 3 [.combineGlobally .sum (some 1)] = .ok [.int 0] := by
+  constructor <;> rfl
+
+end IB
